@@ -59,3 +59,71 @@ Theorem glue1_nonvacuous :
      (Coercion.Validate.ValidateExamples.ex_plan_with (Coercion.Validate.ValidateExamples.k7 4)) = false).
 Proof. exact (conj GlueExamples.ex1_original_rejected GlueExamples.ex1_validate_examples_seen_by_clone). Qed.
 Print Assumptions glue1_nonvacuous.
+
+(* ================================================================== 2. C16 -> engine: shape_wf is discharged
+   Shape.erase_plan is the erasure coq/engine's automaton (and C01-C03, C06-C08 on top of it) runs on;
+   shape_wf sh = "every block of sh has Concurrency >= 1" is the premise of their theorems.
+   GlueEngine.shape_norm sh = sh with every block's concurrency c replaced by max 1 c. *)
+From Coercion.Engine Require Shape Event PlanSM Accept.
+From Coercion.Glue Require GlueEngine GlueEngineCor.
+
+(* what Submit hands to the store (Validate.prepared: in-place normalisation by Validate, then Defaults, then
+   the submit time), from ANY plan - well formed or not -, any id supply: its engine shape is the submitted
+   plan's shape with Concurrency < 1 read as 1, hence well formed *)
+Theorem glue2_prepared_shape :
+  forall (supply : nat -> uid) (n : nat) (now : Z) (p : plan),
+    Shape.erase_plan (fst (Validate.prepared supply n now p)) = GlueEngine.shape_norm (Shape.erase_plan p) /\
+    Shape.shape_wf (Shape.erase_plan (fst (Validate.prepared supply n now p))) = true.
+Proof. exact (fun s n t p => conj (GlueEngine.prepared_shape s n t p) (GlueEngine.prepared_shape_wf s n t p)). Qed.
+Print Assumptions glue2_prepared_shape.
+
+(* every accepted Submit (c16_submit's situation; no premise on the id supply or on the vault is needed here):
+   the plan now at the head of the store has a well-formed engine shape *)
+Theorem glue2_submitted_shape_wf :
+  forall (supply : nat -> uid) (create_ok : plan -> bool) (now : Z) (regset : bool)
+         (w : Validate.world) (op : option plan) (w' : Validate.world) (id : uid),
+    Validate.submit supply create_ok now regset w op = (w', Some id) ->
+    exists p sp, op = Some p /\ WF.WF p /\ Validate.w_store w' = sp :: Validate.w_store w /\ p_id sp = id /\
+      Shape.erase_plan sp = GlueEngine.shape_norm (Shape.erase_plan p) /\
+      Shape.shape_wf (Shape.erase_plan sp) = true.
+Proof. exact GlueEngine.submitted_shape_wf. Qed.
+Print Assumptions glue2_submitted_shape_wf.
+
+(* the shape is a function of the definition alone (ids, states, attempts, times are invisible to it), which
+   is why c16_submit's "defn sp = defn (normalize p)" determines it *)
+Theorem glue2_shape_of_definition :
+  forall p : plan, Shape.erase_plan (WF.defn p) = Shape.erase_plan p.
+Proof. exact GlueEngine.erase_plan_defn. Qed.
+Print Assumptions glue2_shape_of_definition.
+
+(* so the engine-automaton properties hold, premise-free, of every trace the automaton accepts on the shape
+   of every submitted plan: the published theorems c01_order_and_gates, c02_concurrency_bound, c03_tolerance,
+   c06_gating, c07_cont_deferred, c08_persist_before_act instantiated *)
+Theorem glue2_submitted_plan_engine_properties :
+  forall (supply : nat -> uid) (create_ok : plan -> bool) (now : Z) (regset : bool)
+         (w : Validate.world) (op : option plan) (w' : Validate.world) (id : uid),
+    Validate.submit supply create_ok now regset w op = (w', Some id) ->
+    exists sp, Validate.w_store w' = sp :: Validate.w_store w /\ p_id sp = id /\
+      forall (tr : list Event.event) (s : PlanSM.st),
+        Accept.run (Shape.erase_plan sp) PlanSM.init tr = Some s ->
+        Coercion.C01.MonC01.mon_order (Shape.erase_plan sp, tr) = true /\
+        Coercion.C02.MonC02.mon_conc (Shape.erase_plan sp, tr) = true /\
+        Coercion.C03.MonC03.mon_tol (Shape.erase_plan sp, tr) = true /\
+        Coercion.C06.MonC06.mon_gate (Shape.erase_plan sp, tr) = true /\
+        Coercion.C07.MonC07.mon_cont_deferred (Shape.erase_plan sp, tr) = true /\
+        Coercion.C08.MonC08.mon_persist (Shape.erase_plan sp, tr) = true.
+Proof. exact GlueEngineCor.submitted_plan_engine_properties. Qed.
+Print Assumptions glue2_submitted_plan_engine_properties.
+
+(* instance: coq/validate's example plan is submitted with Concurrency 0 in its first block; its own shape is
+   not shape_wf, the stored plan's is (concurrencies 1 and 2; retries and groups unchanged) *)
+Theorem glue2_nonvacuous :
+  Shape.shape_wf (Shape.erase_plan Coercion.Validate.ValidateExamples.ex_plan) = false /\
+  option_map (fun sp => Shape.shape_wf (Shape.erase_plan sp)) GlueExamples.ex2_stored = Some true /\
+  option_map (fun sp => map Shape.bs_conc (Shape.sh_blocks (Shape.erase_plan sp))) GlueExamples.ex2_stored
+    = Some [1; 2].
+Proof.
+  exact (conj (proj1 GlueExamples.ex2_shape)
+        (conj (proj1 (proj2 GlueExamples.ex2_shape)) (proj1 (proj2 (proj2 GlueExamples.ex2_shape))))).
+Qed.
+Print Assumptions glue2_nonvacuous.
